@@ -83,8 +83,12 @@ func c08Unanswered(res *vh.Result, ci int, rng *vh.Rng) {
 		pre, dpPre, ncall := env.Srv.VerifSnapshot(), dp.Table(), len(tap.Calls)
 		seq = s.NextSeq()
 		s.SendFrom(0, vh.BuildMsg(vh.MModReq, &up, seq, ies...))
-		rsp := s.WaitRsp(seq, 250*time.Millisecond)
-		if err := env.Barrier(); err != nil {
+		// no wall-clock verdict: the barrier (queues empty, a heartbeat round trip through the same receive queue,
+		// queues empty) proves that the loop is done with the request; a response, if there is one, was written to
+		// the loopback socket before the heartbeat's and is already in this SMF's socket buffer
+		err := env.Barrier()
+		rsp := s.WaitRsp(seq, 20*time.Millisecond)
+		if err != nil {
 			if fs := vh.TakeFatals(); len(fs) > 0 {
 				res.Violate(ci, vh.FaultSig(fs[0]), "fatal after a modification with an undecodable Node ID: "+fs[0], nil)
 				return
